@@ -340,9 +340,18 @@ func Minimise(t *testing.T, spec *Spec, d *D, target *Violation) ([]Step, *Viola
 	}
 	bestV, bestH := v0, h0
 	bestTail := lastTail
-	if v0.AtStep < len(best) {
-		best = best[:v0.AtStep]
+	// cutting the program after the step that produced the violation is itself a candidate: a run
+	// continues after a (containable) finding, so the shorter program has another event log and the
+	// recorded hash must be that of the program that is written to the replay file
+	truncate := func() {
+		if bestV.AtStep < len(best) {
+			cand := append([]Step(nil), best[:bestV.AtStep]...)
+			if v, h := try(cand); same(v) {
+				best, bestV, bestH, bestTail = cand, v, h, lastTail
+			}
+		}
 	}
+	truncate()
 	n := 2
 	for len(best) >= 2 && execs < 400 && time.Now().Before(deadline) {
 		chunk := (len(best) + n - 1) / n
@@ -355,9 +364,7 @@ func Minimise(t *testing.T, spec *Spec, d *D, target *Violation) ([]Step, *Viola
 			cand := append(append([]Step(nil), best[:i]...), best[j:]...)
 			if v, h := try(cand); same(v) {
 				best, bestV, bestH, bestTail = cand, v, h, lastTail
-				if v.AtStep < len(best) {
-					best = best[:v.AtStep]
-				}
+				truncate()
 				if n > 2 {
 					n--
 				}
